@@ -188,6 +188,7 @@ typedef struct {
   int nprog; Dop prog[MAXOPS];
   int mu_cls, mu_act, mu_tgt, mu_armed;
   /* calls made from inside the expose (0), focus (1) and geomchange (2) handlers */
+  int br;   /* brackets around the handler's drawing: 1 savepen..restore, 2 save..restore, 4 savepen..restore around every call */
   int nact[4]; struct { char k[3]; int w, t, l, h, c; } act[4][16];   /* 0 expose, 1 focus IN about itself, 2 geomchange, 3 focus IN about a child */
 } HW;
 static HW hw[MAXW];
@@ -237,6 +238,7 @@ static int app_at(int id, int l, int c)
 static void do_mutation(HW *h, int cls);
 
 static void do_close(int id);
+static int flush_depth;   /* calls from expose handlers are made at the outermost flush only */
 static void run_actions(HW *h, int kind)
 {
   for(int k = 0; k < h->nact[kind]; k++) {
@@ -253,6 +255,13 @@ static void run_actions(HW *h, int kind)
     else if(!strcmp(a, "rf")) tickit_window_raise_to_front(tw);
     else if(!strcmp(a, "lo")) tickit_window_lower(tw);
     else if(!strcmp(a, "lb")) tickit_window_lower_to_back(tw);
+    else if(!strcmp(a, "fl")) { flush_depth++; tickit_window_flush(root); flush_depth--; }
+    else if(!strcmp(a, "rg")) {
+      TickitRect old = tickit_window_get_geometry(tw);
+      tickit_window_set_geometry(tw, (TickitRect){ .top = h->act[kind][k].t, .left = h->act[kind][k].l, .lines = h->act[kind][k].h, .cols = h->act[kind][k].c });
+      TickitWindow *p = tickit_window_parent(tw);
+      if(p) { TickitRect now = tickit_window_get_geometry(tw); tickit_window_expose(p, &old); tickit_window_expose(p, &now); }
+    }
     else if(w > 0 && (!strcmp(a, "xc") || !strcmp(a, "xd"))) {
       /* close; xd: and drop both references, so that the window is destroyed */
       do_close(w);
@@ -271,8 +280,11 @@ static int on_expose(TickitWindow *win, TickitEventFlags flags, void *_info, voi
   LOGF(xlog, xlen, "%s%d:%d,%d,%d,%d", xlen ? ";" : "", id, r.top, r.left, r.lines, r.cols);
   Dop dflt = { 'p', 0, 0, 0, 0 };
   int n = h->nprog ? h->nprog : 1;
+  if(h->br & 1) tickit_renderbuffer_savepen(rb);
+  if(h->br & 2) tickit_renderbuffer_save(rb);
   for(int k = 0; k < n; k++) {
     Dop *o = h->nprog ? &h->prog[k] : &dflt;
+    if(h->br & 4) tickit_renderbuffer_savepen(rb);
     switch(o->k) {
       case 'p':
         for(int l = r.top; l < r.top + r.lines; l++) {
@@ -300,8 +312,11 @@ static int on_expose(TickitWindow *win, TickitEventFlags flags, void *_info, voi
       case 's': tickit_renderbuffer_skip_at(rb, o->a, o->b, o->c); break;
       case 'k': tickit_renderbuffer_clear(rb); break;
     }
+    if(h->br & 4) tickit_renderbuffer_restore(rb);
   }
-  run_actions(h, 0);
+  if(h->br & 2) tickit_renderbuffer_restore(rb);
+  if(h->br & 1) tickit_renderbuffer_restore(rb);
+  if(flush_depth <= 1) run_actions(h, 0);
   return 1;
 }
 
@@ -492,7 +507,7 @@ static int run_case(void)
 {
   int i = 0;
   if(vh_ntok < 5 || strcmp(vh_tok[0], "W")) return -1;
-  memset(hw, 0, sizeof hw); norder = 0; nsrec = 0; nsrec_printed = 0; gen = 0;
+  memset(hw, 0, sizeof hw); flush_depth = 0; norder = 0; nsrec = 0; nsrec_printed = 0; gen = 0;
   xlen = flen = ilen = 0; xlog[0] = flog[0] = ilog[0] = 0;
   tk = vh_tok[1][0];
   int nl = vh_int(2), nc = vh_int(3);
@@ -538,13 +553,14 @@ static int run_case(void)
       }
       continue;
     }
+    if(!strcmp(o, "BR")) { if(A(1) >= 0 && A(1) < MAXW) hw[A(1)].br = A(2); i += 3; continue; }
     if(!strcmp(o, "RA") || !strcmp(o, "FA") || !strcmp(o, "GA") || !strcmp(o, "FC")) {
       int kind = o[0] == 'R' ? 0 : o[0] == 'G' ? 2 : o[1] == 'A' ? 1 : 3;
       int id = A(1), n = A(2); i += 3;
       HW *h = (id >= 0 && id < MAXW) ? &hw[id] : NULL;
       for(int k = 0; k < n && i < vh_ntok; k++) {
         const char *a = vh_tok[i];
-        int isx = !strcmp(a, "ex");
+        int isx = !strcmp(a, "ex") || !strcmp(a, "rg");
         if(h && h->nact[kind] < 16) {
           int m = h->nact[kind];
           strncpy(h->act[kind][m].k, a, 2); h->act[kind][m].k[2] = 0;
@@ -575,7 +591,14 @@ static int run_case(void)
       i += 8; continue;
     }
     if(!strcmp(o, "X")) { if(A(1) > 0 && win_ok(A(1))) do_close(A(1)); i += 2; continue; }
-    if(!strcmp(o, "S")) { if(win_ok(A(1))) tickit_window_show(hw[A(1)].win); i += 2; continue; }
+    if(!strcmp(o, "S")) {
+      if(win_ok(A(1))) {
+        SEP(); printf("SH W=%d U=", A(1)); print_tree(root);
+        tickit_window_show(hw[A(1)].win);
+        printf(" T="); print_tree(root);
+      }
+      i += 2; continue;
+    }
     if(!strcmp(o, "H")) { if(win_ok(A(1))) tickit_window_hide(hw[A(1)].win); i += 2; continue; }
     if(!strcmp(o, "R"))  { if(win_ok(A(1))) tickit_window_raise(hw[A(1)].win); i += 2; continue; }
     if(!strcmp(o, "RF")) { if(win_ok(A(1))) tickit_window_raise_to_front(hw[A(1)].win); i += 2; continue; }
@@ -625,7 +648,7 @@ static int run_case(void)
           printf("%s%d,%d,%d,%d", k ? ";" : "", dr.top, dr.left, dr.lines, dr.cols);
         }
       }
-      tickit_window_flush(root);
+      flush_depth = 1; tickit_window_flush(root); flush_depth = 0;
       char after[2048]; snap_grid(after, sizeof after);
       printf(" T="); print_tree(root);
       printf(" B=%s G=%s X=%s", before, after, xlen ? xlog : "-");
@@ -726,7 +749,7 @@ static int run_case(void)
   fflush(stdout);
 
   /* teardown: drain the restack queue, then drop every reference, parents first */
-  tickit_window_flush(root);
+  flush_depth = 1; tickit_window_flush(root); flush_depth = 0;
   hw[0].win = NULL;
   tickit_window_unref(root);
   for(int k = 1; k < norder; k++) {
